@@ -130,7 +130,7 @@ TIME = [c for c in FULL if
 DFREGION = [dict(fmt='df', with_datetime=wd, cid=cid, region=reg)
             for reg in ('R1m', 'R1') for wd in (False, True) for cid in (0, 7)]
 # integer catalog ids beyond 2**31 and 2**53 (not exactly representable as a double), every format once
-BIGIDS = [2 ** 31, 123456789012, 2 ** 53 + 1, 1562383355630123457, 2 ** 63 - 1]
+BIGIDS = [2 ** 31, 123456789012, 2 ** 53 + 1, 1562383355630123457, 2 ** 63 - 1, -2, -2019, -(2 ** 40)]
 BIGID = ([dict(fmt='dict', cid=c, region=None, name=NAMES[0]) for c in BIGIDS]
          + [dict(fmt='ascii', mode='plain', header=h, cid=c, region=None) for c in BIGIDS for h in (True, False)]
          + [dict(fmt='ascii', mode='append-new', header=True, cid=c, region=None) for c in BIGIDS]
@@ -265,6 +265,20 @@ def _cases(tier, seed):
 
 
 # ----------------------------------------------------------------------------- harness
+def _strip(d):
+    """What a caller may do with a dictionary it was handed: drop the bulky members, relabel."""
+    if not isinstance(d, dict):
+        return
+    for k in list(d):
+        v = d[k]
+        if isinstance(v, dict):
+            _strip(v)
+            v.clear()
+        elif isinstance(v, list):
+            del v[:]
+    d.clear()
+
+
 _REGION_OBJ = {}
 _REGION_PROBE = {}
 
@@ -403,6 +417,10 @@ def roundtrip(events, cfg):
             loaded = _lib('load_catalog', lambda: csep.load_catalog(path))
         elif fmt == 'dict':
             calls += 2
+            # history: an EARLIER dictionary of the same catalog was taken and edited by the caller (a summary without the
+            # polygons, another name); the dictionary taken afterwards must still describe the catalog
+            d0 = _lib('to_dict', lambda: srcs[0].to_dict())
+            _strip(d0)
             d = _lib('to_dict', lambda: srcs[0].to_dict())
             # history: the SAME dictionary object is loaded twice; the second load is the one judged (a loader that
             # consumes or alters its argument shows here), and the first must agree with it
@@ -417,6 +435,8 @@ def roundtrip(events, cfg):
             path = os.path.join(_scratch(), 'c14.json')
             _rm(path)
             calls += 2
+            d0 = _lib('to_dict', lambda: srcs[0].to_dict())
+            _strip(d0)                      # same history before the JSON form is written
             _lib('write_json', lambda: srcs[0].write_json(path))
             if cfg['loader'] == 'csep.load_catalog':
                 loaded = _lib('load_catalog', lambda: csep.load_catalog(path))
